@@ -78,8 +78,32 @@ func (vc *VC) call(ins ssa.Instruction, c *ssa.CallCommon, v *ssa.Call) {
 			}
 		} else {
 			sig, _ = c.Value.Type().Underlying().(*types.Signature)
-			if vc.dynamicDispatch(c, v, sig, args, pos) {
+			// function value taken from a struct field (e.g. result.Ack): contract keyed like an interface method
+			var ownerT types.Type
+			fieldIdx := -1
+			if fl, ok := c.Value.(*ssa.Field); ok {
+				ownerT, fieldIdx = fl.X.Type(), fl.Field
+			} else if ld, ok := c.Value.(*ssa.UnOp); ok && ld.Op == token.MUL {
+				if fa, ok := ld.X.(*ssa.FieldAddr); ok {
+					ownerT, fieldIdx = fa.X.Type().Underlying().(*types.Pointer).Elem(), fa.Field
+				}
+			}
+			if ownerT != nil {
+				if n, ok := ownerT.(*types.Named); ok && n.Obj().Pkg() != nil {
+					st := n.Underlying().(*types.Struct)
+					key = n.Obj().Pkg().Path() + "." + n.Obj().Name() + "." + st.Field(fieldIdx).Name()
+					calleePkg = n.Obj().Pkg().Path()
+					for i := 0; i < sig.Params().Len(); i++ {
+						paramNames = append(paramNames, sig.Params().At(i).Name())
+					}
+				}
+			}
+			if key == "" && vc.dynamicDispatch(c, v, sig, args, pos) {
 				return
+			}
+			if key != "" && vc.eng.specFor(key) == nil {
+				key = ""
+				calleePkg = ""
 			}
 		}
 	}
@@ -94,7 +118,13 @@ func (vc *VC) call(ins ssa.Instruction, c *ssa.CallCommon, v *ssa.Call) {
 	}
 	var spec *FuncSpec
 	if key != "" {
-		spec = vc.eng.DB.Funcs[key]
+		spec = vc.eng.specFor(key)
+		if spec == nil && c.IsInvoke() {
+			// wildcard contract for every method of an interface: "iface pkg.Iface.*"
+			if k := strings.LastIndex(key, "."); k >= 0 {
+				spec = vc.eng.DB.Funcs[key[:k]+".*"]
+			}
+		}
 		if spec == nil && c.IsInvoke() {
 			// method declared in an embedded interface
 			if recvT := c.Method.Type().(*types.Signature).Recv(); recvT != nil {
